@@ -56,7 +56,7 @@ def run(ctx: Ctx) -> dict:
     model(ctx)
     table = ctx.table(env)
     rng = random.Random(ctx.seed + 2)
-    k = 3 if ctx.quick else 40
+    k = 3 if ctx.quick else 150
     ops = []
     n_bbans = 0
     for row in table:
